@@ -207,15 +207,18 @@ def drive_consumer(schema, inputs, max_failures=None):
     phase = Phase(name=PhaseName.FUZZING, is_supported=True, is_enabled=True)
     suite_id = uuid.uuid4()
     started: dict = {}
+    inv: dict = {}
 
     def real(e):
         k = e["k"]
         if k == "scenStarted":
             ev = events.ScenarioStarted(label=f"GET /op{e['id']}", phase=PhaseName.FUZZING, suite_id=suite_id)
             started[e["id"]] = ev.id
+            inv[ev.id] = e["id"]
             return ev
         if k == "scenFinished":
             sid = started.setdefault(e["id"], uuid.uuid4())
+            inv[sid] = e["id"]
             return events.ScenarioFinished(id=sid, suite_id=suite_id, phase=PhaseName.FUZZING, label=f"GET /op{e['id']}",
                                            status=Status(e["st"]), recorder=ScenarioRecorder(label="x"), elapsed_time=0.0,
                                            skip_reason=None, is_final=False)
@@ -239,7 +242,6 @@ def drive_consumer(schema, inputs, max_failures=None):
                     ctx.stop()
         except KeyboardInterrupt:
             out.append("KeyboardInterrupt-escaped")
-    inv = {v: k for k, v in started.items()}
     ids = {}
     canon = []
     for e in out:
